@@ -272,6 +272,67 @@ def three_rows(gap1: int, gap2: int, it1: bool, it2: bool, it3: bool, dbl: bool)
     return _three_rows(1 if gap1 == 1 else 2, 1 if gap2 == 1 else 2, it1, it2, it3, dbl)
 
 
+ROWSETS = (((14, 0),), ((14, 0), (15, 0)), ((13, 4), (14, 8)), ((5, 0),), ((15, 0),), ((14, 4),), ((15, 4),), ((12, 8),))
+
+
+def _rowset(i):
+    if i == 0:
+        return ROWSETS[0]
+    if i == 1:
+        return ROWSETS[1]
+    if i == 2:
+        return ROWSETS[2]
+    if i == 3:
+        return ROWSETS[3]
+    if i == 4:
+        return ROWSETS[4]
+    if i == 5:
+        return ROWSETS[5]
+    if i == 6:
+        return ROWSETS[6]
+    return ROWSETS[7]
+
+
+def two_captions(k1: int, k2: int, enm: bool, dbl: bool) -> str:
+    """
+    pre: 0 <= k1 < 8 and 0 <= k2 < 8
+    post: _ == ""
+    """
+    # two consecutive pop-on captions: the second one's rows lie above, on, or directly below the first one's;
+    # each caption is positioned at its own first row, whatever the previous caption's rows were
+    def cap(rows, tag):
+        ws = ([R.ENM] if enm else []) + [R.RCL]
+        for k, (r, ind) in enumerate(rows):
+            ws += [R.pac(r, indent=ind)] + R.chars(tag + "xyz"[k])
+        return ws + [R.EOC]
+    w1, w2 = cap(_rowset(k1), "a"), cap(_rowset(k2), "b")
+    s1, s2 = (_double(w1), _double(w2)) if dbl else (w1, w2)
+    doc = HEADER + "00:00:01:00\t" + " ".join(s1) + "\n\n00:00:05:00\t" + " ".join(s2) + "\n\n00:00:10:00\t" + R.EDM + "\n"
+    screens = R.PopOnDecoder().feed(s1 + s2)
+    want = []
+    for scr in screens:
+        for rows in R.captions_of(scr):
+            x, y = R.position(rows[0][0], rows[0][1])
+            want.append(("\n".join(_norm(t) for (_, _, t, _) in rows), x, y))
+    try:
+        caps = SCCReader().read(doc).get_captions("en-US")
+    except Exception as e:
+        return "reader raised " + type(e).__name__
+    if len(caps) != len(want):
+        return "number of captions"
+    for c, (t, x, y) in zip(caps, want):
+        if "\n".join(_norm(z) for z in c.get_text().split("\n")) != t:
+            return "text / lines"
+        o = c.layout_info.origin if c.layout_info is not None else None
+        if o is None or abs(o.x.value - x) > 1e-9 or abs(o.y.value - y) > 1e-9:
+            return "position of a caption that follows another caption"
+    return ""
+
+
+def public_two_captions(k1, k2, enm, dbl):
+    return two_captions(k1, k2, enm, dbl)
+
+
 def two_rows(r1: int, gap: int, ind1: int, ind2: int, it1: bool, it2: bool, dbl: bool) -> str:
     """
     pre: 1 <= r1 <= 12 and 1 <= gap <= 3 and 0 <= ind1 <= 6 and 0 <= ind2 <= 6
